@@ -3,7 +3,7 @@
    Arrays are (length, index function) over Q; np.pad is an arbitrary function with the contract
    [np_contract]; exp is an arbitrary positive function. *)
 From Coq Require Import ZArith QArith List Bool Lia.
-From PB Require Import lib.PySlice C18.Model C18.SumQ C18.PadProofs C18.ConvProofs C18.Model2D C18.Proofs2D C18.DType C18.DTypeProofs C18.OwProofs C18.LsqMin C18.LinProofs.
+From PB Require Import lib.PySlice C18.Model C18.SumQ C18.PadProofs C18.ConvProofs C18.Model2D C18.Proofs2D C18.DType C18.DTypeProofs C18.OwProofs C18.LsqMin C18.LinProofs C18.AffProofs.
 Import ListNotations.
 Open Scope Z_scope.
 
@@ -409,3 +409,16 @@ Theorem C18_pad_index_modes_copy : forall (src : Z -> Z -> Z) (f : Q -> Q) (y : 
   end.
 Proof. exact pad_src_map. Qed.
 Print Assumptions C18_pad_index_modes_copy.
+
+(* pad_edges 'extrapolate' is equivariant under EVERY affine map of the data: for every length, pad length,
+   windows (None, scalar, per side, 1, larger than N, invalid) and every a, b (a = 0 and a < 0 included),
+   padding a*y + b gives a*(padding of y) + b point by point -- fitted edges included -- and the two calls
+   are rejected together with the same error.  (C18_linear_exact is the special case y = a line.) *)
+Theorem C18_extrapolate_affine_equivariant : forall (y : vec) (p : Z) (ew : option (list Z)) (a b : Q),
+  match pad_edges y p (Extrapolate ew), pad_edges (vmap (aff a b) y) p (Extrapolate ew) with
+  | Ok o, Ok o' => vlen o' = vlen o /\ forall i, (vget o' i == a * vget o i + b)%Q
+  | Err e, Err e' => e = e'
+  | _, _ => False
+  end.
+Proof. exact pad_extrapolate_affine. Qed.
+Print Assumptions C18_extrapolate_affine_equivariant.
